@@ -48,6 +48,8 @@ type caseT struct {
 	Handlers []hspec
 	PerChan  int
 	Phase2   bool // second round of messages carrying a context captured in another handler
+	PubDecs  int  // no-op publisher decorators installed on the router
+	SubDecs  int  // no-op subscriber decorators installed on the router
 	Msgs     map[string]mspec
 	Wait     bool // wait for each settlement before emitting the next on the same channel
 }
@@ -86,6 +88,8 @@ func genCase(t *rapid.T) caseT {
 	c.PerChan = rapid.IntRange(1, 3).Draw(t, "msgsPerSubscription")
 	c.Wait = rapid.Bool().Draw(t, "waitSettle")
 	c.Phase2 = rapid.Bool().Draw(t, "foreignContextRound")
+	c.PubDecs = rapid.IntRange(0, 2).Draw(t, "publisherDecorators")
+	c.SubDecs = rapid.IntRange(0, 2).Draw(t, "subscriberDecorators")
 	for ch := 0; ch < nh; ch++ {
 		for k := 0; k < c.PerChan+1; k++ {
 			c.Msgs[fmt.Sprintf("c%d-%d", ch, k)] = mspec{
@@ -100,7 +104,7 @@ func genCase(t *rapid.T) caseT {
 
 func (c caseT) canon() string {
 	var b strings.Builder
-	fmt.Fprintf(&b, "%q|%q|%d|%v|%v|", c.SubNames, c.PubNames, c.PerChan, c.Wait, c.Phase2)
+	fmt.Fprintf(&b, "%q|%q|%d|%v|%v|%d%d|", c.SubNames, c.PubNames, c.PerChan, c.Wait, c.Phase2, c.PubDecs, c.SubDecs)
 	for _, h := range c.Handlers {
 		fmt.Fprintf(&b, "%q,%d,%s,%d,%s,%v;", h.Name, h.Sub, h.SubTopic, h.Pub, h.PubTopic, h.AppendMW)
 	}
@@ -123,8 +127,10 @@ func (p *plainSub) Close() error { return p.s.Close() }
 
 type plainPub struct{ p *lib.ScriptPub }
 
-func (p plainPub) Publish(topic string, msgs ...*message.Message) error { return p.p.Publish(topic, msgs...) }
-func (p plainPub) Close() error                                        { return p.p.Close() }
+func (p plainPub) Publish(topic string, msgs ...*message.Message) error {
+	return p.p.Publish(topic, msgs...)
+}
+func (p plainPub) Close() error { return p.p.Close() }
 
 type handled struct {
 	handler string
@@ -143,6 +149,13 @@ func runCase(t *rapid.T, c caseT) {
 	router, err := message.NewRouter(message.RouterConfig{CloseTimeout: 5 * time.Second}, watermill.NopLogger{})
 	if err != nil {
 		t.Fatalf("NewRouter: %v", err)
+	}
+	// decorators must not change what the context reports (the names are those of the handler's own Pub/Sub)
+	for i := 0; i < c.PubDecs; i++ {
+		router.AddPublisherDecorators(message.MessageTransformPublisherDecorator(func(*message.Message) {}))
+	}
+	for i := 0; i < c.SubDecs; i++ {
+		router.AddSubscriberDecorators(message.MessageTransformSubscriberDecorator(func(*message.Message) {}))
 	}
 	subs := make([]*lib.ScriptSub, len(c.SubNames))
 	for i, n := range c.SubNames {
